@@ -22,6 +22,10 @@ CLAIMED = {
  "C08": ("B", "exploration", "Subkey spending with 1-3 sends of 1-3 coins (duplicate denoms, several sends per denom) racing admin increases/decreases with expiries around the clock; exact per-denom deduction from in-frame snapshots, other subkeys untouched, cumulative relayed <= granted ledger over committed calls, failed relays leave no deduction.", "as C01; admin callers are exempt from deduction", "5/C08"),
  "C16": ("B", "exploration", "Differential probe on the states simulated histories reach: CanExecute{sender,msg} is queried and Execute{msgs:[msg]} by the same sender is submitted as the very next transaction in the same block; the answer must equal whether the proxy's own execute returned Ok (downstream success is irrelevant).", "a state probe rather than an interleaving property (DESIGN.md section 5/C16)", "5/C16"),
  "C17": ("B", "exploration", "Histories of UpdateAdmins (empty lists, duplicates, self-removal), Freeze races, allowance and permission calls by admins, removed admins, subkeys and strangers on mutable and immutable proxies; in-frame pre/post AdminList and tables decide who changed what; a frozen list must be identical at every later observation.", "as C01", "5/C17"),
+ "C11": ("D", "fault_enumeration", "cw20-ics20 on the simulated chain with real cw20 tokens and bank, 1-3 channels, and a simulated IBC core/relayer/remote chain that is malicious in most runs (foreign denoms, other port/channel, nested prefixes, amounts 0 / above outstanding / above u64 / u128::MAX, invalid receivers, non-JSON data, arbitrary acks, timeouts); payout and refund sub-calls are failed early and late by injection; after every event holdings >= sum of outstanding per token and payouts <= escrow per channel and denomination from the dispatch log.", "as C01; IBC-core guarantees (true endpoints, one ack xor timeout per sent packet, timeout only after its timestamp) are enforced by the stub; native denoms never start with cw20:; fake tokens are attackers, not members of 'every token'; fault placement is sampled, not exhaustive", "5/C11"),
+ "C12": ("D", "fault_enumeration", "As C11 with an honest remote voucher ledger in most runs; the oracle keeps its own sent/failed/redeemed ledger per channel and denomination and compares it with Channel{} after every event; every incoming packet must be acknowledged without failing or aborting, success acks require the full payout, error acks require the complete observable state to equal the pre-packet state; every accepted transfer must emit exactly one well-formed ICS-20 packet; migrations (same version; reconstructed pre-allow-list layout, with and without default gas limit) are injected into live histories; quiescence settles all packets and compares books with the remote voucher supply.", "as C11; pre-allow-list storage layout reconstructed from migrations.rs by storage surgery (old binaries are not in the repository)", "5/C12"),
+ "C18": ("D", "exploration", "Histories of Allow (raise, lower, unlimit), UpdateAdmin hand-overs, migrations with and without default gas limit and transfers of listed/unlisted/fake tokens by governance, former governance and strangers; in-frame snapshots decide authority; the allow list and default may only loosen between consecutive observations; every payout/refund sub-message must carry the token's current limit or else the default.", "as C11; the monotonicity baseline restarts at a storage-surgery migration, which models a different past rather than a transition", "5/C18"),
+ "C20": ("ABCD", "exploration", "State probe on the states simulated histories reach in all four worlds, with bulk-population runs of 25-70 items per listing: for each of the list queries (cw20-base 3, cw1-subkeys 2, cw3-fixed 4, cw3-flex 4, cw4-group 1, cw4-stake 1, cw20-ics20 1) and each limit in {absent,0,1,2,3,7,10,29,30,31,100,u32::MAX} the listing is walked with the last key as cursor and compared with an independent raw dump of the contract's storage (filtered by the oracle's own expiry test for the time-dependent subkeys listing).", "a state probe rather than an interleaving property (DESIGN.md section 5/C20); ground truth decodes cw-storage-plus key layout", "5/C20"),
  "C19": ("A", "exploration", "After every event the single-allowance query, the owner listing and the spender listing are compared for all actor pairs and all listed pairs; migrations from a reconstructed pre-0.14 layout (spender index deleted by storage surgery, old cw2 version) are injected at arbitrary points of live histories.", "pre-0.14 layout reconstructed from migrate(); as C01", "5/C19"),
 }
 NA = {
